@@ -37,7 +37,7 @@ class Laplace(Distribution):
     def logpdf(self, x):
         if isinstance(x, (float,int)):
             x = np.array([x])
-        return self.dim*(np.log(0.5/self.scale)) - np.linalg.norm(x-self.location,1)/self.scale
+        return self.dim*(np.log(0.5/self.scale)) - np.sum(np.abs(x-self.location))/self.scale # (the 1-norm of a VECTOR: for a (1,1) location x-location is a matrix)
 
     def _sample(self,N=1,rng=None):
         if rng is not None:
